@@ -122,7 +122,7 @@ Proof.
   rewrite Hr. cbn [orelse].
   assert (Hw : white_space ((c :: name) ++ rest) = CNone).
   { unfold white_space. cbn [app span]. rewrite (alpha_not_space c Hc). reflexivity. }
-  rewrite Hw.
+  rewrite Hw. change (Z.min 0 1) with 0%Z.
   rewrite (lit_name (c :: name) rest prev Hn Hs). cbn [length]. reflexivity.
 Qed.
 
@@ -147,7 +147,7 @@ Proof.
     assert (Hb : (c =? c_bslash)%N = false) by (destruct Hc as [-> | [-> | ->]]; reflexivity).
     assert (Hsl : (c =? c_slash)%N = false) by (destruct Hc as [-> | [-> | ->]]; reflexivity).
     rewrite Hb, Hsl. cbn [andb orb]. rewrite (op_char_allowed c Hc). rewrite orb_true_r. reflexivity. }
-  rewrite Hl. destruct Hc as [-> | [-> | ->]]; reflexivity.
+  change (Z.min 0 1) with 0%Z. rewrite Hl. destruct Hc as [-> | [-> | ->]]; reflexivity.
 Qed.
 
 (* ---------------------------------------------------------------- the loop *)
